@@ -1910,6 +1910,10 @@ class _GroupElem(ABC):
             j_f = Normalize(coord[p2_f] - coord[p0_f])
 
             n_f = Normalize(np.cross(i_f, j_f, 1, 1))
+            # the surfaces table gives outward normals for positively oriented elements only:
+            # orient them away from the element center (mirrored meshes)
+            inward_f = np.einsum("fi,fi->f", coord[p0_f] - coord.mean(0), n_f) < 0
+            n_f[inward_f] *= -1
 
             coordinates_n_i = coordinates_n[:, np.newaxis].repeat(Nface, 1)
 
